@@ -240,6 +240,31 @@ def match_ops(prog: Program) -> RuleResult:
                         roles.setdefault(t.id, set()).update(role_of(st.value))
     ok = len(calls) == 1 and len(calls[0].args) == 2 and role_of(calls[0].args[0]) == {"left"} and role_of(calls[0].args[1]) == {"right"}
     r.check(ok, "Comparator.apply_operation#left-right", site(ap), src(calls[0]) if calls else "", "operation(left value, right value)", "the comparator does not apply its operation to (left, right) in that order")
+    # match_all compiles to attr == pattern on two collections: "the same set of elements".  On every path on which both operands are
+    # collections and the operation is == or !=, both arguments of the operation are sets of the operand's elements.
+    from ..dtable import term
+
+    paths = explore(prog, ap, [Sym(ap.params[0]), Sym(ap.params[1])], self_type=comp.qual, inline=lambda q: False)
+    n_coll = 0
+    bad = None
+    for val, out, calls_ in paths:
+        it_l = [v for a, v in val.items() if a[0] == "truth" and a[1].startswith("is_iterable(") and ".left." in a[1]]
+        it_r = [v for a, v in val.items() if a[0] == "truth" and a[1].startswith("is_iterable(") and ".right." in a[1]]
+        eq_like = any(a[0] in ("ord", "in", "is", "eq") and "operation" in str(a[1:]) and v in (0, True) for a, v in val.items())
+        if not (it_l and it_r and all(it_l) and all(it_r) and eq_like):
+            continue
+        n_coll += 1
+        for c_ in calls_:
+            if getattr(c_, "fn", "") == f"{ap.params[0]}.operation" and len(c_.args) == 2:
+                texts = [term(a_) for a_ in c_.args]
+                if not all(any(w in t for w in ("make_set(", "set(", "frozenset(")) for t in texts):
+                    bad = bad or (val, texts)
+    if n_coll < 1:
+        raise AnalysisError("MATCH-OPS: no path of Comparator.apply_operation treats two collection operands under == / !=")
+    r.check(bad is None, "Comparator.apply_operation#collections-as-sets", site(ap), f"{n_coll} paths with two collection operands under == / !=",
+            "both collections are compared as sets of their elements on every such path",
+            "on the path " + (", ".join(f"{' '.join(map(str, a[1:]))[:50]}={v}" for a, v in bad[0].items() if a[0] != "ord" and "operation(" not in str(a[1])) if bad else "") +
+            f" the operation is applied to {bad[1] if bad else ''}: match_all (attr == pattern) then depends on order or repetitions instead of meaning 'the same set of elements'")
     return r
 
 
